@@ -1061,6 +1061,13 @@ var verifAPI = map[string]intrinsic{
 		t.block(func() bool { return false }, "pause")
 		return nil
 	},
+	"verifPauseAny": func(t *Thread, a []Value) Value {
+		t.parked = true
+		t.parkedAny = true
+		t.block(func() bool { return false }, "pause-any")
+		return nil
+	},
+	"verifSettle": func(t *Thread, a []Value) Value { return nil },
 	"verifLive": func(t *Thread, a []Value) Value {
 		n := 0
 		for _, th := range t.run.threads {
